@@ -25,9 +25,7 @@ use futures::{
 };
 use std::{collections::VecDeque, sync::Arc, time::SystemTime};
 
-use super::error::{InternalError, QuotaExceeded};
-
-const ERRMSG_HANDLE_DROPPED: &str = "Unable to complete async operation.";
+use super::error::QuotaExceeded;
 
 struct Session {
     awaiting_ack: VecDeque<(usize, oneshot::Sender<Result<RxPacket, MqttError>>)>,
@@ -121,20 +119,20 @@ where
                 if let Err(err) = Self::validate_packet_size(connection, msg.packet.as_ref()) {
                     msg.response_channel
                         .send(Err(err))
-                        .map_err(|_| InternalError::from(ERRMSG_HANDLE_DROPPED))?;
+                        .ok(); // The caller may have dropped the future; that is not an error.
                     return Ok(());
                 }
 
                 tx.write(msg.packet.freeze().as_ref()).await?;
                 msg.response_channel
                     .send(Ok(()))
-                    .map_err(|_| InternalError::from(ERRMSG_HANDLE_DROPPED))?;
+                    .ok(); // The caller may have dropped the future; that is not an error.
             }
             ContextMessage::AwaitAck(mut msg) => {
                 if let Err(err) = Self::validate_packet_size(connection, msg.packet.as_ref()) {
                     msg.response_channel
                         .send(Err(err))
-                        .map_err(|_| InternalError::from(ERRMSG_HANDLE_DROPPED))?;
+                        .ok(); // The caller may have dropped the future; that is not an error.
                     return Ok(());
                 }
 
@@ -144,7 +142,7 @@ where
                     if connection.send_quota == 0 {
                         msg.response_channel
                             .send(Err(QuotaExceeded.into()))
-                            .map_err(|_| InternalError::from(ERRMSG_HANDLE_DROPPED))?;
+                            .ok(); // The caller may have dropped the future; that is not an error.
                         return Ok(());
                     }
 
@@ -182,7 +180,7 @@ where
                 if let Err(err) = Self::validate_packet_size(connection, msg.packet.as_ref()) {
                     msg.response_channel
                         .send(Err(err))
-                        .map_err(|_| InternalError::from(ERRMSG_HANDLE_DROPPED))?;
+                        .ok(); // The caller may have dropped the future; that is not an error.
                     return Ok(());
                 }
 
@@ -309,7 +307,7 @@ where
                 {
                     sender
                         .send(Ok(rx_packet))
-                        .map_err(|_| InternalError::from(ERRMSG_HANDLE_DROPPED))?;
+                        .ok(); // The caller may have dropped the future; that is not an error.
                 }
             }
             RxPacket::Pubcomp(pubcomp) => {
@@ -329,7 +327,7 @@ where
                 {
                     sender
                         .send(Ok(rx_packet))
-                        .map_err(|_| InternalError::from(ERRMSG_HANDLE_DROPPED))?;
+                        .ok(); // The caller may have dropped the future; that is not an error.
                 }
             }
             RxPacket::Pubrec(pubrec) => {
@@ -349,7 +347,7 @@ where
                 {
                     sender
                         .send(Ok(rx_packet))
-                        .map_err(|_| InternalError::from(ERRMSG_HANDLE_DROPPED))?;
+                        .ok(); // The caller may have dropped the future; that is not an error.
                 }
             }
             RxPacket::Pubrel(pubrel) => {
@@ -366,7 +364,7 @@ where
                 {
                     sender
                         .send(Ok(other))
-                        .map_err(|_| InternalError::from(ERRMSG_HANDLE_DROPPED))?;
+                        .ok(); // The caller may have dropped the future; that is not an error.
                 }
             }
         }
